@@ -760,8 +760,18 @@ pub mod simd {
     macro_rules! sweep {
         ($planner:ident, $t:ty, $limit:expr, $tol:expr) => {{
             if let Ok(mut p) = crate::$planner::<$t>::new() {
+                // every length below the limit (direction by parity; both directions up to 72, where every butterfly and the first mixed-radix
+                // combinations live), then the structured lengths that reach the large fixed-size kernels and deep radix chains
+                let mut todo: Vec<(usize, FftDirection)> = Vec::new();
                 for n in 0..$limit {
                     let d = if n % 2 == 0 { FftDirection::Forward } else { FftDirection::Inverse };
+                    todo.push((n, d));
+                    if n <= 72 { todo.push((n, d.opposite_direction())); }
+                }
+                for &n in &[384usize, 432, 486, 512, 576, 625, 648, 729, 768, 1024, 1296, 2048, 2187, 4096] {
+                    if n >= $limit { todo.push((n, FftDirection::Forward)); todo.push((n, FftDirection::Inverse)); }
+                }
+                for (n, d) in todo {
                     let desc = format!("{}::<{}>.plan_fft({}, {:?})", stringify!($planner), stringify!($t), n, d);
                     eprintln!("CASE {desc}");
                     let r = quiet(|| p.plan_fft(n, d));
